@@ -164,6 +164,9 @@ func newChain() *chain {
 		panic(err)
 	}
 	c.pxa = viaListener(&proxy.HTTPProxy{
+		// (proxy.header.sts.maxage is configured too: on a plain listener fabio adds no such header,
+		// and what the upstream says about it is the upstream's business)
+		Config:      config.Proxy{STSHeader: config.STSHeader{MaxAge: 31536000, Subdomains: true}},
 		Stats:       wire.Stats(),
 		Transport:   &http.Transport{DisableCompression: true, MaxIdleConnsPerHost: 4},
 		Lookup:      lookup,
@@ -372,8 +375,8 @@ func (q clientReq) wire() []byte {
 func genUpstreamResp(t *rapid.T, method string) upstreamResp {
 	r := upstreamResp{status: rapid.SampledFrom([]int{200, 200, 201, 202, 204, 206, 301, 302, 304, 400, 401, 403, 404, 409, 418, 429, 500, 502, 503, 599}).Draw(t, "status")}
 	for i, n := 0, rapid.IntRange(0, 6).Draw(t, "nrh"); i < n; i++ {
-		name := rapid.SampledFrom([]string{"Set-Cookie", "Set-Cookie", "X-Up", "Content-Type", "Cache-Control", "Etag", "Location", "X-Multi", "X-Multi", "Www-Authenticate", "Vary", "Content-Language"}).Draw(t, "rhname")
-		val := rapid.SampledFrom([]string{"a=1; Path=/", "b=2; HttpOnly", "v", "text/plain", "no-cache", "\"tag\"", "/elsewhere?x=1", "Basic realm=\"r\"", "Accept", "de, en"}).Draw(t, "rhval")
+		name := rapid.SampledFrom([]string{"Set-Cookie", "Set-Cookie", "X-Up", "Content-Type", "Cache-Control", "Etag", "Location", "X-Multi", "X-Multi", "Www-Authenticate", "Vary", "Content-Language", "Strict-Transport-Security", "Accept-Ranges", "Alt-Svc"}).Draw(t, "rhname")
+		val := rapid.SampledFrom([]string{"a=1; Path=/", "b=2; HttpOnly", "v", "text/plain", "no-cache", "\"tag\"", "/elsewhere?x=1", "Basic realm=\"r\"", "Accept", "de, en", "max-age=600", "bytes"}).Draw(t, "rhval")
 		r.header = append(r.header, [2]string{name, val})
 	}
 	if rapid.IntRange(0, 11).Draw(t, "large-response-header-block") == 0 {
